@@ -168,6 +168,10 @@ def safe_callable_names(root: ast.Module) -> Collection[str]:
             nonreturn_children = []
             for child in node.body:
                 if core.is_blocking(child):
+                    # The values of return statements are checked below; anything else that
+                    # ends the function (raise, an endless loop, ...) is part of what a call does
+                    if not isinstance(child, ast.Return):
+                        nonreturn_children.append(child)
                     break
 
                 nonreturn_children.append(child)
